@@ -274,3 +274,33 @@ Proof.
   - repeat first [apply shape_leaf; vm_compute; reflexivity | apply shape_inner; [vm_compute; discriminate|]].
   - vm_compute. reflexivity.
 Qed.
+
+(* ---------- the Linux backend's CPU discovery (model: Topo/LinuxCpu.v = look_sysfscpu over the CONTENTS of the
+   sysfs files, composed with the C18 models of the two sysfs parsers and the strtoul/atoi models; tied request by
+   request to the objects the backend hands to the core on every traced Linux load) ---------- *)
+From HV Require Import Topo.LinuxCpu Topo.LinuxCpuProofs.
+
+(* whatever the files contain (well formed or not), under every filter assignment: every requested object's cpuset
+   is inside the set of online cpus that have a topology directory ... *)
+Theorem linux_cpu_requests_within_online_cpus : forall keep v,
+  Forall (fun r => SetsProofs.sub (q_cs r) (interesting v)) (linux_cpu_requests keep v).
+Proof. exact linux_requests_within_interesting. Qed.
+Print Assumptions linux_cpu_requests_within_online_cpus.
+
+(* ... and every such cpu gets its PU request: type PU, os_index = the cpu number, cpuset = its singleton *)
+Theorem linux_cpu_requests_have_every_pu : forall keep v c,
+  In c (v_cpus v) -> mem (c_n c) (interesting v) = true ->
+  exists c', c_n c' = c_n c /\ In (simple_req HWLOC_OBJ_PU (c_n c') (bs_single (c_n c'))) (linux_cpu_requests keep v).
+Proof. exact linux_requests_have_every_pu. Qed.
+Print Assumptions linux_cpu_requests_have_every_pu.
+
+(* Non-vacuity: two online cpus sharing a core and a package ("00000003" masks, ids "0"), cpu 2 offline *)
+Definition ex_cpu (n : N) : cpu_files :=
+  let f (s : string) := Some (bytes_of_string s ++ [10]) in
+  mkCPU n true None (f "00000003"%string) None None (f "00000007"%string) None None (f "0"%string) None None (f "0"%string) None None [].
+Definition ex_view : lview := mkView false false false false false false (Some (bytes_of_string "0-1"%string ++ [10])) [ex_cpu 1; ex_cpu 0; ex_cpu 2].
+Example linux_cpu_requests_example :
+  interesting ex_view = bs_of_N 3 /\
+  map (fun r => (q_type r, q_os r, q_cs r)) (linux_cpu_requests (fun _ => true) ex_view) =
+    [(HWLOC_OBJ_CORE, 0, bs_of_N 3); (HWLOC_OBJ_PACKAGE, 0, bs_of_N 3); (HWLOC_OBJ_PU, 0, bs_of_N 1); (HWLOC_OBJ_PU, 1, bs_of_N 2)].
+Proof. split; vm_compute; reflexivity. Qed.
